@@ -92,6 +92,14 @@ def _doc_append(x):
 
 
 PATHS = {
+    "parent_styled_button": lambda x: ht.Tag("styled-button", x).get_html_string(),
+    "parent_script_editor_multi": lambda x: ht.Tag("script-editor", span(), x).get_html_string(),
+    "parent_stylesheet": lambda x: ht.Tag("stylesheet", x, "t").get_html_string(),
+    "parent_title": lambda x: ht.tags.title(x).get_html_string(),
+    "parent_textarea_multi": lambda x: ht.tags.textarea(x, "t").get_html_string(),
+    "parent_svg_title": lambda x: ht.svg.title(x).get_html_string(),
+    "parent_noscript": lambda x: ht.tags.noscript(x).get_html_string(),
+    "parent_pre": lambda x: ht.pre(x, span()).get_html_string(),
     "taglist_iadd_list": lambda x: _iadd(ht.TagList(span()), [x, "t"]).get_html_string(),
     "taglist_iadd_str": lambda x: _iadd(ht.TagList(p()), x).get_html_string(),
     "taglist_insert": lambda x: _ins(ht.TagList(span(), div()), 1, x).get_html_string(),
